@@ -38,6 +38,7 @@ func runC03(e *Env) {
 	}
 	p := m.p
 	checkMerge(e, m)
+	checkCondSources(e, m)
 	for _, pr := range m.frag.Problems {
 		if pr.Rule != "E1.andor" {
 			continue
@@ -976,4 +977,54 @@ func isSumOfLens(v ssa.Value) bool {
 		return ok && k >= 0
 	}
 	return false
+}
+
+// checkCondSources (E1.source): the conditions that are lowered are the policy's own: every condition that becomes
+// current in the emitter is an element of a full range over a list that is an element of a full range over the
+// Conditions field of an entry, the entry being an element of a full range over the list the validation function
+// returned - with no function in between that could drop, merge or rewrite conditions.
+func checkCondSources(e *Env, m *e1Model) {
+	r := e.R
+	p := m.p
+	ts := p.Func(load.PkgRoot, "SyscallGroup.toSyscallsWithConditions")
+	// x[rangekey(x)] -> x
+	ranged := func(o *origin.O) *origin.O {
+		if o == nil {
+			return nil
+		}
+		switch o.Kind {
+		case origin.KElem:
+			if len(o.Args) == 2 && o.Args[1].Kind == origin.KRangeKey && len(o.Args[1].Args) == 1 && origin.Equal(o.Args[1].Args[0], o.Args[0]) {
+				return o.Args[0]
+			}
+		case origin.KRangeVal:
+			if len(o.Args) == 1 {
+				return o.Args[0]
+			}
+		}
+		return nil
+	}
+	n := 0
+	for pos, o := range m.fragG.CondSources {
+		n++
+		list := ranged(o)            // the condition list
+		lists := ranged(list)        // the entry's Conditions
+		var entry, entries *origin.O // the entry; the list of entries
+		if lists != nil && lists.Kind == origin.KField && lists.Field.Name() == "Conditions" {
+			entry = lists.Args[0]
+			entries = ranged(entry)
+		}
+		good := entries != nil && entries.Kind == origin.KCall && entries.Callee != nil && entries.Callee == ts
+		detail := "ok"
+		if !good {
+			detail = o.String()
+			if len(detail) > 260 {
+				detail = detail[:260] + "..."
+			}
+		}
+		r.Check(good, "E1.source", "condition-source", p.Pos(pos),
+			"each lowered condition is an element of a list of the Conditions of an entry returned by the validation function, reached by ranging over all elements",
+			"the conditions that are lowered are not exactly the entry's own condition lists (a function or partial selection lies in between, so conditions can be dropped, merged or rewritten before they are compiled): "+detail)
+	}
+	r.Floor("E1.source(condition stores)", n, 1)
 }
